@@ -55,6 +55,16 @@ func GenGame(prop string, seed uint64) *Scenario {
 		g.MovesToGo = rng.Range(1, 40)
 	}
 	g.GuiLagUs = rng.LogRange(1, 20000)
+	if g.StartFen == rules.StartFen && rng.Chance(0.35) {
+		// play out of a small opening book: book moves first, then the
+		// "first move after the book" path with its extra time
+		g.UseBook = true
+		g.Opening = nil
+		if rng.Chance(0.4) {
+			// fixed time per move instead of clocks
+			g.MoveTimeMs = rng.LogRange(20, 3000)
+		}
+	}
 	// cost model: time compression. One stop check costs base ns of fake
 	// time; base is chosen so that one move needs at most ~200k stop checks
 	// of real work (1 us .. 1 ms per check), and the search yields every 8th
@@ -76,6 +86,9 @@ func GenGame(prop string, seed uint64) *Scenario {
 		b := r[sd]/m + g.WIncMs*1_000_000
 		if b > r[sd] {
 			b = r[sd]
+		}
+		if g.MoveTimeMs > 0 {
+			b = g.MoveTimeMs * 1_000_000
 		}
 		budgets = append(budgets, b)
 		r[sd] += g.WIncMs*1_000_000 - b
